@@ -96,7 +96,7 @@ Print Assumptions C05_ibc_transfer_survives_revert_refuted.
     repeated self-destruct inside a reverted frame restores both the flag and the balance. *)
 Theorem C05_selfdestruct_in_reverted_frame_undone_example :
   model_obs w_sd_in_reverted_frame = impl_obs w_sd_in_reverted_frame /\ b_ok (model_obs w_sd_in_reverted_frame) = true /\
-  b_supply (model_obs w_sd_in_reverted_frame) = 0 /\ b_alive (model_obs w_sd_in_reverted_frame) = [true; true; true].
+  b_supply (model_obs w_sd_in_reverted_frame) = 0 /\ firstn 3 (b_alive (model_obs w_sd_in_reverted_frame)) = [2; 2; 2].
 Proof. exact sd_in_reverted_frame_undone. Qed.
 Print Assumptions C05_selfdestruct_in_reverted_frame_undone_example.
 
@@ -113,3 +113,22 @@ Theorem C05_selfdestruct_after_reverted_selfdestruct_pays_out_example :
   b_supply (model_obs w_sd_third_after_reverted) = 0 /\ nth 0 (b_bal (model_obs w_sd_third_after_reverted)) 0 = 6000.
 Proof. exact sd_third_after_reverted_pays_out. Qed.
 Print Assumptions C05_selfdestruct_after_reverted_selfdestruct_pays_out_example.
+
+(** CREATE: CreateAccount over an existing object is one of the journalled operations of
+    [C05_revert_restores_every_cache_observable] ([OReset]: the journal keeps the whole previous object).  On the
+    implementation, reproduced exactly by the model: a creation with an endowment onto an address that already
+    holds coins, whose constructor reverts, leaves the earlier coins and returns the endowment; a creation inside
+    a reverted frame does not even consume the creator's nonce. *)
+Theorem C05_reverted_creation_on_funded_address_leaves_no_trace_example :
+  model_obs w_cr_reverted_on_funded_address = impl_obs w_cr_reverted_on_funded_address /\
+  b_ok (model_obs w_cr_reverted_on_funded_address) = true /\ b_supply (model_obs w_cr_reverted_on_funded_address) = 0 /\
+  nth 14 (b_bal (model_obs w_cr_reverted_on_funded_address)) 0 = 7 /\ nth 2 (b_bal (model_obs w_cr_reverted_on_funded_address)) 0 = 3993.
+Proof. exact cr_reverted_on_funded_address. Qed.
+Print Assumptions C05_reverted_creation_on_funded_address_leaves_no_trace_example.
+
+Theorem C05_creation_in_reverted_frame_keeps_the_nonce_example :
+  model_obs w_cr_nested_reverted_then_selfdestruct = impl_obs w_cr_nested_reverted_then_selfdestruct /\
+  b_ok (model_obs w_cr_nested_reverted_then_selfdestruct) = true /\ b_supply (model_obs w_cr_nested_reverted_then_selfdestruct) = 0 /\
+  b_nonce (model_obs w_cr_nested_reverted_then_selfdestruct) = [0; 1; 0] /\ nth 0 (b_bal (model_obs w_cr_nested_reverted_then_selfdestruct)) 0 = 4966.
+Proof. exact cr_nested_reverted_then_selfdestruct. Qed.
+Print Assumptions C05_creation_in_reverted_frame_keeps_the_nonce_example.
